@@ -941,6 +941,13 @@ def modules_family():
     merged15 = (H + "lp_sensor = GasSensor(d0, alias=True)\nlq_sensor = GasSensor(d1, alias=True)\ndef lp_temp():\n    return lp_sensor.Temperature\ndef lq_pres():\n    return lq_sensor.Pressure\n"
                 "while True:\n    d2.Setting = lp_temp() + lq_pres()\n    d3.Setting = lp_temp()\n    yield_()\n")
     out.append(("md_alias_collision", {"": main15, "lp": lib_p, "lq": lib_q}, merged15))
+    # module-level statements of two libraries imported in non-alphabetical order: they run in import order
+    lib_z = H + "d1.Setting = 1\nd2.Setting = d0.Setting\ndef zed(xa):\n    return xa + 1\n"
+    lib_a2 = H + "d1.Setting = 2\nd2.Setting = 7\ndef aye(xa):\n    return xa * 2\n"
+    main16 = H + "from library import zz\nfrom library import aa\nwhile True:\n    d3.Setting = zz.zed(d0.Setting) + aa.aye(1)\n    yield_()\n"
+    merged16 = (H + "d1.Setting = 1\nd2.Setting = d0.Setting\ndef zz_zed(xa):\n    return xa + 1\nd1.Setting = 2\nd2.Setting = 7\ndef aa_aye(xa):\n    return xa * 2\n"
+                "while True:\n    d3.Setting = zz_zed(d0.Setting) + aa_aye(1)\n    yield_()\n")
+    out.append(("md_import_order", {"": main16, "zz": lib_z, "aa": lib_a2}, merged16))
     return out
 
 
